@@ -87,9 +87,14 @@ func genC20(t *rapid.T) *C20Case {
 	if rapid.Bool().Draw(t, "poll") {
 		c.PollNs = rapid.SampledFrom([]int64{2e6, 20e6, 200e6}).Draw(t, "pollNs")
 	}
+	regKinds := []string{"onchangestate", "handleincoming", "handleoutgoing"}
+	if c.Role == "initiator" {
+		// the initiating application asks for a (new) logon itself, e.g. after the peer logged it out
+		regKinds = append(regKinds, "logonrequest")
+	}
 	for i := rapid.IntRange(0, 5).Draw(t, "regs"); i > 0; i-- {
 		c.Regs = append(c.Regs, RegOp{At: rapid.Int64Range(0, c.Horizon).Draw(t, "regAt"),
-			Kind: rapid.SampledFrom([]string{"onchangestate", "handleincoming", "handleoutgoing"}).Draw(t, "regKind")})
+			Kind: rapid.SampledFrom(regKinds).Draw(t, "regKind")})
 	}
 	sort.SliceStable(c.Regs, func(i, j int) bool { return c.Regs[i].At < c.Regs[j].At })
 	c.StopKind = rapid.SampledFrom([]string{"none", "session-stop", "session-stop", "handler-stop", "serve-close"}).Draw(t, "stopKind")
@@ -349,6 +354,9 @@ func checkC20(c *C20Case, rec *evid.Rec) (vs []pbt.Violation) {
 					g.h.HandleIncoming(simplefixgo.AllMsgTypes, func([]byte) bool { return true })
 				case "handleoutgoing":
 					g.h.HandleOutgoing(rig.TMDReject, func(simplefixgo.SendingMessage) bool { return true })
+				case "logonrequest":
+					act("logon-request")
+					_ = sess.LogonRequest()
 				}
 			}
 		}()
